@@ -61,6 +61,15 @@ def cell_cover(rng):
     for op in gen.UNARY:
         for la, a in atoms:
             out.append((f"un:{op}:{la}", UnaryOp(a, op), x))
+    # compositions whose algebraic "simplification" would be unsound: powers of powers, nested neg/abs/sqrt
+    shifted = [("X-3", x - 3.0), ("X", x), ("XY", x * U.scalars[1]), ("2X+1", 2.0 * x + 1.0)]
+    for la, base in shifted:
+        for a_in in [2, 3, 4, 2.0, 0.5, -1, -2]:
+            for b_out in [0.5, 1.5, -0.5, 2, 3, -1, 2.5, 1, 0]:
+                out.append((f"powpow:{a_in}:{b_out}:{la}", BinaryOp(BinaryOp(base, Constant(a_in), "**"), Constant(b_out), "**"), x))
+        for op in ("sqrt", "abs", "log", "exp", "neg"):
+            out.append((f"unpow:{op}:{la}", UnaryOp(BinaryOp(base, Constant(2), "**"), op), x))
+            out.append((f"powun:{op}:{la}", BinaryOp(UnaryOp(base, op), Constant(2), "**"), x))
     # vector rules × {wrt inside / outside} × operand kinds
     n = U.n
     views = U.vec_views()
@@ -215,7 +224,7 @@ def run(ctx) -> core.Report:
     # numeric oracle on the regular-by-construction subset + all cell-cover cases
     n_num = 0
     for tag, e, w, safe, s, ws in metas:
-        if not (safe or tag.startswith(("bin", "pow", "un", "vec"))):
+        if not (safe or tag.startswith(("bin", "pow", "un", "vec", "powpow", "unpow", "powun"))):
             continue
         if n_num > (120000 if thorough else 16000):
             break
@@ -224,7 +233,7 @@ def run(ctx) -> core.Report:
 
         class _V:  # lightweight name carrier
             def __init__(self, n): self.name = n
-        for _ in range(2 if safe else 1):
+        for _ in range(2 if safe else 3 if tag.startswith(("powpow", "unpow", "powun")) else 1):
             pt = gen.rand_point(rng, [_V(n) for n in sorted(names)])
             r = numeric_check(e, w, pt)
             n_num += 1
@@ -241,6 +250,27 @@ def search(ctx, rep):
     """correspondence or proof broken and no failing input among the cases of this run:
     widen — many more regular-by-construction random trees against the dual-number oracle"""
     rng = core.Rng(ctx["seed"] + 7919)
+    # first the disagreeing cases themselves, at many points (incl. negative coordinates)
+    seen = set()
+    for mm in rep.corr_mismatches[:400]:
+        key = (mm["expr"], mm["wrt"])
+        if key in seen:
+            continue
+        seen.add(key)
+        try:
+            e = deser(mm["expr"])
+        except Exception:  # noqa: BLE001
+            continue
+        vs = gen.expr_vars(e)
+        w = next((v for v in vs if v.name == mm["wrt"]), None)
+        if w is None:
+            continue
+        for _ in range(40):
+            pt = gen.rand_point(rng, vs, lo=-3.0, hi=3.0)
+            r = numeric_check(e, w, pt)
+            if r not in (None, "skip"):
+                r.update({"expr": mm["expr"], "wrt": w.name, "point": pt})
+                return r
     for i in range(12000):
         U = gen.Universe(rng)
         e = gen.rand_expr(rng, U, rng.randint(1, 5), safe=True)
